@@ -19,6 +19,16 @@ CLAIMED = {
             "same libm as the library (log/exp), knots rounded to the 11 digits the build keeps; intervals next to the one non-monotone abscissa step "
             "(CS_Photo Z=96) excluded; the 1e-7 guard band above the last knot accepts both outcomes",
             "DESIGN.md 2/C02"),
+    "C05": ("structured enumeration (all Z, photo-table knots, edges, range ends, angle grids) + seeded draws; metamorphic/defining identities evaluated from public components",
+            "Each of the ~40 aggregate / unit-variant entry points is compared at 1e-13 with its defining identity built from the public component "
+            "functions and header constants, in both data configurations, and must fail exactly when a required part fails.",
+            "components themselves are decided by C01/C02/C12; identities share the library's own components so a common-mode error in a component is invisible here",
+            "DESIGN.md 2/C05"),
+    "C09": ("structured enumeration (all Z x shells x all line macros x edge-bracketing energies) + seeded draws against an independent re-implementation of the jump-ratio model (reference model oracle)",
+            "CS(b)_FluorShell/Line for every Z, shell and line macro at energies on both sides of every K/L edge are compared at 1e-13 with "
+            "photo x share x yield x rate recomputed from the public primitives; errors required below the edge / for unavailable inputs.",
+            "primitives trusted (C01/C02); exact zero share accepts 0.0 with or without error; energies exactly on an edge are not generated",
+            "DESIGN.md 2/C09"),
     "C10": ("exhaustive enumeration Z x group macro; reference average recomputed from member lines selected by name (differential oracle)",
             "All Z x {KA,KB,LA,LB, 7 doublets, KO, KP} energies and {KA,KB,LA} rates plus all 39 Siegbahn aliases are compared (1e-13) with the "
             "weighted/plain mean over members chosen by parsing line names; finite space, nothing sampled.",
